@@ -182,6 +182,8 @@ package db
 //@ (define-fun serial_value ((t (_ BitVec 64)) (a (Array (_ BitVec 64) (_ BitVec 8))) (b Slice)) Iface (ite (= t #x0000000000000000) if_nil (ite (= t #x0000000000000001) (if_int64 ((_ sign_extend 56) (select a (bvadd (s_off b) #x0000000000000000)))) (ite (= t #x0000000000000002) (if_int64 ((_ sign_extend 48) (concat (select a (bvadd (s_off b) #x0000000000000000)) (select a (bvadd (s_off b) #x0000000000000001))))) (ite (= t #x0000000000000003) (if_int64 (twos24 a (s_off b))) (ite (= t #x0000000000000004) (if_int64 ((_ sign_extend 32) (concat (select a (bvadd (s_off b) #x0000000000000000)) (select a (bvadd (s_off b) #x0000000000000001)) (select a (bvadd (s_off b) #x0000000000000002)) (select a (bvadd (s_off b) #x0000000000000003))))) (ite (= t #x0000000000000005) (if_int64 (twos48 a (s_off b))) (ite (= t #x0000000000000006) (if_int64 (be64 a (s_off b))) (ite (= t #x0000000000000007) (if_float64 ((_ to_fp 11 53) (be64 a (s_off b)))) (ite (= t #x0000000000000008) (if_int64 #x0000000000000000) (ite (= t #x0000000000000009) (if_int64 #x0000000000000001) (ite (= ((_ extract 0 0) t) #b0) (if_LRuint8 (mk_slice (s_reg b) (s_off b) (serial_size t) (s_cap b))) (if_string (mk_str a (s_off b) (serial_size t)))))))))))))))
 //@ (define-fun storable ((v Iface)) Bool (or ((_ is if_nil) v) ((_ is if_int64) v) ((_ is if_float64) v) ((_ is if_string) v) ((_ is if_LRuint8) v)))
 
+// [layout]: the serial types start right after the header-size varint and end at the header size; the
+// values start at the header size and end with the record.
 //@ func db.parseRecord
 //@   props C14 C01 C02 C05
 //@   pure
@@ -190,6 +192,7 @@ package db
 //@   ensures [fresh] r0 == nil || fresh(r0)
 //@   trusted-ensures [token] err == nil ==> parsed(r0, r)
 //@   trusted-ensures [nonan] forall k int :: 0 <= k && k < len(r0) ==> no_nan(r0[k])
+//@   loop 1 entry [layout] off(header) == off(r) + varint_len(mem(r), off(r), len(r)) && off(header) + len(header) == off(r) + varint_val(mem(r), off(r), varint_len(mem(r), off(r), len(r))) && off(body) == off(r) + varint_val(mem(r), off(r), varint_len(mem(r), off(r), len(r))) && off(body) + len(body) == off(r) + len(r)
 //@   loop 1 invariant within(header, r)
 //@   loop 1 invariant suffix_of(body, r)
 //@   loop 1 invariant 0 <= len(res) && len(res) <= cap(res) && (reg(res) == 0 || fresh(res)) && (reg(res) == 0 ==> len(res) == 0 && cap(res) == 0) && ule(off(res), 0)
